@@ -85,7 +85,9 @@ LISTY_FUNCS = {'len', 'list', 'tuple', 'sorted', 'enumerate', 'reversed'}
 PURE_FUNCS = {'len', 'str', 'repr', 'isinstance', 'type', 'bool', 'int', 'float', 'range', 'any', 'all', 'sum', 'min', 'max', 'print', 'id', 'hash',
               'String', 'Number', 'Boolean', 'typeof', 'void', 'polymorphic_xrange', 'xrange', 'unicode', 'ord', 'chr', 'abs', 'round',
               'parseInt', 'parseFloat', 'isNaN', 'callable', 'getattr', 'hasattr', 'format', 'Symbol', 'assert'}
-PURE_NAMESPACES = {'JSON', 'Math', 'Object', 'Array', 'Number', 'String', 'Date', 're', 'math', 'Symbol'}
+PURE_NAMESPACES = {'JSON', 'Math', 'Object', 'Array', 'Number', 'String', 'Date', 're', 'math', 'Symbol', 'csv_utils'}
+IO_RECEIVERS = {'self.stream', 'this.stream', 'sys.stdout', 'sys.stderr', 'console'}      # their methods only read their arguments
+ROW_NAMES = INTEREST                     # a write(..) parameter with one of these names is a flat row (depth 1)
 SRC_METHODS = {'get_record', 'get_rhs', 'get_join_records'}
 EMIT_RECEIVERS = {'query_context.writer', 'self.subwriter', 'this.subwriter'}
 WRITER_CLASSES = ['TopWriter', 'UniqWriter', 'UniqCountWriter', 'SortedWriter', 'AggregateWriter', 'TableWriter', 'CSVWriter']
@@ -354,6 +356,8 @@ def coq_rhs(r):
         return 'RConcat [%s]' % '; '.join(str(x) for x in r[1])
     if k == 'elem':
         return 'RElem %d' % r[1]
+    if k == 'cell':
+        return 'RCell %d' % r[1]
     return {'fresh': 'RFresh', 'src': 'RSrc', 'load': 'RLoad'}[k]
 
 
@@ -776,7 +780,7 @@ class Tr:
 
     def rhs_of(self, kind):
         k = kind[0]
-        if k in ('var', 'copy', 'elem'):
+        if k in ('var', 'copy', 'elem', 'cell'):
             return (k, kind[1])
         if k == 'concat':
             return ('concat', kind[1]) if kind[1] else ('fresh',)
@@ -815,13 +819,17 @@ class Tr:
                 th()
         return k
 
-    def escape(self, e, mutate):
-        """the value of e escapes (stored in a container / attribute, or handed to unknown code when mutate)"""
+    def escape(self, e, mutate, row_ok=False):
+        """the value of e escapes (stored in a container / attribute, or handed to unknown code when mutate).
+        row_ok: the destination is a flat row (its cells are never trusted), so storing a CELL there needs no statement"""
         if isinstance(e, ast.Starred):
             e = ast.Subscript(value=e.value, slice=ast.Constant(value=0), ctx=ast.Load(), lineno=getattr(e, 'lineno', 0))
         if isinstance(e, (ast.List, ast.Tuple, ast.Set)):
+            inner_row = self.depth(e) <= 1
             for x in e.elts:
-                self.escape(x, mutate)
+                self.escape(x, mutate, inner_row and not mutate)
+            if not mutate:
+                return
             return
         if isinstance(e, ast.Dict):
             for x in list(e.keys) + list(e.values):
@@ -830,6 +838,8 @@ class Tr:
             return
         k = self.classify(e)
         if k[0] in ('scalar', 'unknown'):
+            return
+        if k[0] == 'cell' and row_ok and not mutate:
             return
         x = self.materialize(k, 'esc')
         if mutate:
@@ -929,11 +939,12 @@ class Tr:
             self.read(e.right)
             return ('fresh',) if listy(e, sc.lv) else ('scalar',)
         if isinstance(e, (ast.List, ast.Tuple, ast.Set)):
+            row = self.depth(e) <= 1
             for x in e.elts:
                 if isinstance(x, ast.Starred):
                     self.read(x.value)
                 else:
-                    self.escape(x, False)
+                    self.escape(x, False, row)
             return ('fresh',)
         if isinstance(e, ast.Dict):
             for x in list(e.keys) + list(e.values):
@@ -976,7 +987,7 @@ class Tr:
             if kb[0] == 'unknown':
                 return ('unknown', e)
             if self.depth(e.value) <= 1:
-                return ('scalar',)          # an element of a flat record: an atom
+                return ('cell', self.materialize(kb, 'row'))      # a cell of a flat record: never owned (rows are copied shallowly)
             return ('elem', self.materialize(kb, 'el'))
         if isinstance(e, ast.Attribute):
             if self.is_lv(e.value):
@@ -1091,14 +1102,20 @@ class Tr:
                 for a in c.args + kwvals:
                     self.read(a)
                 return ('scalar',)
+            if expr_text(f.value) in IO_RECEIVERS:
+                for a in c.args + kwvals:
+                    self.read(a)
+                return ('scalar',)
             kr = self.classify(f.value)
             if kr[0] not in ('scalar', 'unknown'):
                 x = self.materialize(kr, 'rcv')
                 if m in MUTATORS:
                     for a in c.args + kwvals:
-                        self.escape(a, False)
+                        self.escape(a, False, self.depth(f.value) <= 1)
                     self.emit('setitem', x)
-                    return ('elem', x) if m in ELEM_METHODS and self.depth(f.value) > 1 else ('scalar',)
+                    if m in ELEM_METHODS:
+                        return ('elem', x) if self.depth(f.value) > 1 else ('cell', x)
+                    return ('scalar',)
                 if m in COPY_METHODS:
                     for a in c.args + kwvals:
                         self.read(a)
@@ -1110,7 +1127,9 @@ class Tr:
                 if m in READ_METHODS:
                     for a in c.args + kwvals:
                         self.read(a)
-                    return ('elem', x) if m in ELEM_METHODS and self.depth(f.value) > 1 else ('scalar',)
+                    if m in ELEM_METHODS:
+                        return ('elem', x) if self.depth(f.value) > 1 else ('cell', x)
+                    return ('scalar',)
                 # unknown method of a list object
                 self.emit('setitem', x)
                 self.emit('store', x)
@@ -1338,8 +1357,10 @@ class Tr:
         if isinstance(t, (ast.Tuple, ast.List)):
             if kind[0] == 'alts':
                 kind = ('var', self.materialize(kind, 'un'))
-            if depth <= 1:
-                sub = ('scalar',)           # the components of a flat record are atoms
+            if depth <= 1 and kind[0] in ('var', 'copy', 'elem', 'concat', 'fresh', 'cell'):
+                sub = ('cell', self.materialize(kind, 'row'))       # the components of a flat record are cells
+            elif depth <= 1:
+                sub = ('scalar',)
             elif kind[0] in ('var', 'copy', 'elem', 'concat', 'fresh'):
                 src = self.materialize(kind, 'un')
                 sub = ('elem', src)
@@ -1362,7 +1383,7 @@ class Tr:
                         self.read(x)
             else:
                 self.escape(t.slice, False)        # an object used as a key is kept by the container
-            self.escape_kind(kind)
+            self.escape_kind(kind, self.depth(t.value) <= 1 and self.classify_quiet(t.value) not in ('scalar', 'unknown'))
             return
         if isinstance(t, ast.Attribute):
             kb = self.classify(t.value)
@@ -1372,8 +1393,19 @@ class Tr:
             return
         self.fail(node, 'assignment target form %s' % type(t).__name__)
 
-    def escape_kind(self, kind):
+    def classify_quiet(self, e):
+        """the kind tag of e without emitting anything"""
+        return self.sub_kind(e)
+
+    def sub_kind(self, e):
+        box = []
+        self.sub(lambda: box.append(self.classify(e)[0]))
+        return box[0]
+
+    def escape_kind(self, kind, row_ok=False):
         if kind[0] in ('scalar', 'unknown'):
+            return
+        if kind[0] == 'cell' and row_ok:
             return
         if kind[0] == 'src':
             x = self.prog.tmp('esc')
@@ -1488,8 +1520,10 @@ class Tr:
             de = INF if d >= INF else max(0, d - 1)
 
             def body():
-                if d <= 1:
-                    self.bind_target(s.target, ('scalar',), s, 0)       # iterating a flat record: atoms
+                if d <= 1 and k[0] == 'var':
+                    self.bind_target(s.target, ('cell', k[1]), s, 0)    # iterating a flat record: its cells
+                elif d <= 1:
+                    self.bind_target(s.target, ('scalar',), s, 0)
                 elif k[0] == 'var':
                     self.bind_target(s.target, ('elem', k[1]), s, de)
                 elif k[0] == 'src':
@@ -1619,7 +1653,8 @@ def translate_writer(lang, source, cname):
             if not params:
                 raise TranslateError('%s:%d: %s.write has no record parameter' % (cfile, m.lineno, cname))
             init = {params[-1]}
-        tr.scope = tr.make_scope(m.body, params, init, mname + '.', 'writer', (cdef, cfile), cfile, '%s.%s (%s:%d)' % (cname, mname, cfile, m.lineno))
+        pdepth = {p: (1 if p in ROW_NAMES else INF) for p in params}
+        tr.scope = tr.make_scope(m.body, params, init, mname + '.', 'writer', (cdef, cfile), cfile, '%s.%s (%s:%d)' % (cname, mname, cfile, m.lineno), pdepth)
         if mname == 'write':
             # the record parameter is PARAM (variable 0)
             prog.vars[tr.scope.prefix + params[-1]] = 0
